@@ -29,7 +29,7 @@ func drawC03(t *rapid.T) Case {
 		to.MaxDepth = rapid.IntRange(2, 5).Draw(t, "maxdepth")
 		to.MaxFields = rapid.IntRange(3, 14).Draw(t, "maxfields")
 	}
-	vo := gen.ValOpt{InvalidUTF8: true, NaN: rapid.IntRange(0, 5).Draw(t, "nan") == 0, Long: thorough()}
+	vo := gen.ValOpt{InvalidUTF8: true, BadNumbers: true, NaN: rapid.IntRange(0, 5).Draw(t, "nan") == 0, Long: thorough()}
 	c.TypedValue, _, _ = drawTypedValue(t, to, vo)
 	if rapid.IntRange(0, 11).Draw(t, "unsup") == 0 {
 		c.Unsupported = rapid.IntRange(1, 8).Draw(t, "unsupkind")
